@@ -540,10 +540,12 @@ class Exec(Interp):
         if inv is None:
             return
         clauses = inv(self, phase)
-        for name, cond in clauses:
+        for cl in clauses:
+            name, cond = cl[0], cl[1]
+            meta = cl[2] if len(cl) > 2 else {}
             if assert_:
-                self.oblige(f"{name}.{'init' if phase == 'entry' else 'preserved'}", cond, loop_line=s.lineno)
-            else:
+                self.oblige(f"{name}.{'init' if phase == 'entry' else 'preserved'}", cond, loop_line=s.lineno, **meta)
+            elif not meta.get("assert_only") and not meta.get("classes"):
                 self.assume(cond)
 
     def iter_next(self, itv, node, is_async):
